@@ -267,7 +267,15 @@ fn run_batch(prop: &str, master: u64, jobs: &[(Sim, usize)], workers: usize, kno
                         if i >= *n {
                             break;
                         }
-                        let mut res = run_one(*sim, prop, i, run_seed(master, *sim, i), None, false);
+                        let caught = std::panic::catch_unwind(std::panic::AssertUnwindSafe(|| run_one(*sim, prop, i, run_seed(master, *sim, i), None, false)));
+                        let mut res = match caught {
+                            Ok(r) => r,
+                            Err(_) => {
+                                // a panic outside every guarded call into the crate: a bug of the harness itself
+                                eprintln!("harness error: {} run {i} (seed {}) panicked in harness code: {}", sim.name(), run_seed(master, *sim, i), common::take_panic_message());
+                                std::process::exit(2);
+                            }
+                        };
                         if keep_hashes {
                             local_hashes.push((i, res.hash.clone()));
                         }
@@ -523,7 +531,11 @@ fn cmd_check(args: &Args) -> i32 {
         let status = std::process::Command::new(exe).arg("replay").arg(&path).stdout(std::process::Stdio::null()).status();
         match status {
             Ok(s) if s.code() == Some(1) => {
-                for e in &final_res.events {
+                let skip = final_res.events.len().saturating_sub(60);
+                if skip > 0 {
+                    println!("  ... {skip} earlier events omitted (all are in the replay file)");
+                }
+                for e in final_res.events.iter().skip(skip) {
                     println!("  {e}");
                 }
                 let v = final_res.violation.as_ref().unwrap();
@@ -700,7 +712,7 @@ fn main() {
     match code {
         Ok(c) => std::process::exit(c),
         Err(_) => {
-            eprintln!("harness error: main thread panicked: {}", common::take_panic_message());
+            eprintln!("harness error: main thread panicked: {}", common::LAST_PANIC.lock().map(|g| g.clone()).unwrap_or_default());
             std::process::exit(2);
         }
     }
